@@ -17,7 +17,7 @@ use serde_json::{json, Value};
 
 use succinctly::binary::{bytes_to_words, bytes_to_words_vec, try_bytes_to_words, words_to_bytes};
 use succinctly::json::JsonIndex;
-use succinctly::trees::BalancedParens;
+use succinctly::trees::{BalancedParens, SelectSupport};
 use succinctly::{BitVec, RankSelect};
 
 use crate::alloc;
@@ -128,12 +128,18 @@ fn gen_len(rng: &mut Rng, tier: Tier) -> usize {
 }
 
 fn gen_parens(rng: &mut Rng, pairs: usize) -> (Vec<u64>, usize) {
-    // random balanced sequence: 1 = open, 0 = close
+    // random balanced sequence: 1 = open, 0 = close. The open-probability is re-drawn per
+    // segment so that deep nests (find_close across many blocks), flat runs "()()()" and
+    // random walks all occur.
     let len = pairs * 2;
     let mut words = vec![0u64; len.div_ceil(64)];
     let mut open = 0usize; // currently open
     let mut opens_left = pairs;
+    let mut p_open: u64 = 50;
     for i in 0..len {
+        if i % 97 == 0 {
+            p_open = *rng.pick(&[50u64, 50, 92, 8, 99, 1, 70, 30]);
+        }
         let must_open = open == 0;
         let must_close = opens_left == 0;
         let do_open = if must_open {
@@ -141,7 +147,7 @@ fn gen_parens(rng: &mut Rng, pairs: usize) -> (Vec<u64>, usize) {
         } else if must_close {
             false
         } else {
-            rng.chance(1, 2)
+            rng.below(100) < p_open
         };
         if do_open {
             words[i / 64] |= 1 << (i % 64);
@@ -196,8 +202,24 @@ fn gen_json(rng: &mut Rng) -> Vec<u8> {
         }
     }
     let mut out = Vec::new();
-    let mut budget = rng.urange(1, 200) as i32;
+    let mut budget = if rng.chance(1, 10) { rng.urange(200, 3000) } else { rng.urange(1, 200) } as i32;
     val(rng, &mut out, 0, &mut budget);
+    // one document in five is padded with trailing blanks to a multiple of 64 bytes
+    // (the interest-bit vector then ends exactly on a word boundary)
+    if rng.chance(1, 5) {
+        while out.len() % 64 != 0 {
+            out.push(b' ');
+        }
+        if rng.chance(1, 2) && !out.is_empty() {
+            // ... or ends with a value exactly at the boundary
+            let n = out.len();
+            if n >= 4 && out[n - 1] == b' ' && out[n - 2] == b' ' {
+                out.insert(0, b'[');
+                out.pop();
+                out[n - 1] = b']';
+            }
+        }
+    }
     out
 }
 
@@ -312,6 +334,32 @@ fn queries_bits(orig: &BitVec, re: &BitVec, rng: &mut Rng) -> Result<(), String>
     }
     let n = orig.len();
     let ones = orig.count_ones();
+    if orig.count_zeros() != re.count_zeros() {
+        return Err("count_zeros".into());
+    }
+    // block boundaries of the rank directory / select samples, and the end of the vector
+    let mut edges: Vec<usize> = Vec::new();
+    for b in [64usize, 512, 4096] {
+        let mut p = b;
+        while p <= n + b && edges.len() < 400 {
+            edges.extend([p - 1, p, p + 1]);
+            p += b * (1 + rng.usize_below(3));
+        }
+    }
+    edges.extend([n.saturating_sub(1), n, n + 1, n + 64, n + 1000]);
+    for &i in &edges {
+        if orig.rank1(i) != re.rank1(i) || orig.rank0(i) != re.rank0(i) {
+            return Err(format!("rank_edge({i})"));
+        }
+        if i < n && orig.get(i) != re.get(i) {
+            return Err(format!("get_edge({i})"));
+        }
+    }
+    for k in [0usize, 1, 63, 64, 255, 256, 257, 511, 512, 513, 1023, 1024, ones.saturating_sub(1), ones, ones + 1] {
+        if orig.select1(k) != re.select1(k) || orig.select0(k) != re.select0(k) {
+            return Err(format!("select_edge({k})"));
+        }
+    }
     for q in 0..48 {
         let i = match q {
             0 => 0,
@@ -334,7 +382,11 @@ fn queries_bits(orig: &BitVec, re: &BitVec, rng: &mut Rng) -> Result<(), String>
     Ok(())
 }
 
-fn queries_bp<A: AsRef<[u64]>, B: AsRef<[u64]>>(orig: &BalancedParens<A>, re: &BalancedParens<B>, rng: &mut Rng) -> Result<(), String> {
+fn queries_bp<A: AsRef<[u64]>, B: AsRef<[u64]>, S1: SelectSupport, S2: SelectSupport>(
+    orig: &BalancedParens<A, S1>,
+    re: &BalancedParens<B, S2>,
+    rng: &mut Rng,
+) -> Result<(), String> {
     if orig.len() != re.len() {
         return Err("len".into());
     }
@@ -357,13 +409,27 @@ fn queries_bp<A: AsRef<[u64]>, B: AsRef<[u64]>>(orig: &BalancedParens<A>, re: &B
             }
         }
     }
-    for q in 0..64 {
-        let p = match q {
-            0 => 0,
-            1 => n.saturating_sub(1),
-            2 => n,
-            _ => rng.usize_below(n + 1),
-        };
+    let ones = orig.total_ones();
+    if ones != re.total_ones() {
+        return Err("total_ones".into());
+    }
+    for k in [0usize, 1, 63, 64, 255, 256, 257, 511, 512, 513, ones / 2, ones.saturating_sub(1), ones, ones + 1] {
+        if orig.select1(k) != re.select1(k) || orig.select0(k) != re.select0(k) {
+            return Err(format!("select({k})"));
+        }
+    }
+    let mut probe: Vec<usize> = vec![0, n.saturating_sub(1), n];
+    for b in [64usize, 512, 4096, 32768] {
+        let mut p = b;
+        while p < n + 2 && probe.len() < 300 {
+            probe.extend([p - 1, p, p + 1]);
+            p += b * (1 + rng.usize_below(4));
+        }
+    }
+    for _ in 0..64 {
+        probe.push(rng.usize_below(n + 1));
+    }
+    for p in probe {
         if orig.rank1(p) != re.rank1(p) {
             return Err(format!("rank1({p})"));
         }
@@ -404,6 +470,7 @@ fn queries_json<A: AsRef<[u64]>, B: AsRef<[u64]>>(orig: &JsonIndex<A>, re: &Json
             || a.text_range() != b.text_range()
             || a.raw_bytes() != b.raw_bytes()
             || a.is_container() != b.is_container()
+            || a.parent().map(|c| c.bp_position()) != b.parent().map(|c| c.bp_position())
         {
             return Err(format!("cursor at bp {}", a.bp_position()));
         }
@@ -515,6 +582,13 @@ impl C31 {
                         let orig = BalancedParens::new(words.clone(), *len as usize);
                         let re = BalancedParens::from_words(w.clone(), *len as usize);
                         queries_bp(&orig, &re, &mut qrng)?;
+                        // the select-supporting variants: owned vs rebuilt from words
+                        let oc = BalancedParens::new_with_cspoppy(words.clone(), *len as usize);
+                        let rc = BalancedParens::from_words_with_cspoppy(w.clone(), *len as usize);
+                        queries_bp(&oc, &rc, &mut qrng).map_err(|e| format!("cspoppy:{e}"))?;
+                        let os = BalancedParens::new_with_select(words.clone(), *len as usize);
+                        let rs = BalancedParens::from_words_with_select(w.clone(), *len as usize);
+                        queries_bp(&os, &rs, &mut qrng).map_err(|e| format!("select:{e}"))?;
                         // zero-copy variant when the buffer happens to be aligned
                         if al == 0 && !buf.is_empty() {
                             let borrowed: &[u64] = bytes_to_words(&buf);
